@@ -147,6 +147,10 @@ def standard_plan(ctx, visitor, depths_quick=(8, 7, 6, 5, 5), depths_thorough=(1
         tasks += list(tree_tasks(dict(N=N, r=3.5, box=boxes[0], itersLimit=2), "A01", d + 2, visitor, split=2, batch=2))
     if long_runs:
         envs = ("abs13", "const", "lin", "stair")
+        # into the resolution horizon: monotone / V-shaped objectives iterated until doubles cannot split the interval
+        for env in ("abs13", "lin", "neglin"):
+            for r in ((1.5, 2.0, 3.5) if th else (1.5, 3.5)):
+                tasks += list(dev_tasks(dict(N=1, r=r, box="B0", env=env), 120 if th else 90, 0, visitor))
         for N in ((1, 2, 3) if th else (1, 2)):
             for env in envs:
                 for r in ((1.5, 2.0, 3.5) if th else (2.0,)):
